@@ -265,37 +265,62 @@ Section Fuel.
   Qed.
 End Fuel.
 
-(* ====================== the tree parser and the evaluating parser ====================== *)
-Definition b_bin (o : bop) (l : list bool) : bool :=
-  match o with BAnd => forallb (fun b => b) l | BOr => existsb (fun b => b) l end.
+(* ====================== folding trees / expressions in an algebra ====================== *)
+(* The parser is run in an arbitrary algebra (A, a_id, a_sel, a_not, a_bin); foldt folds a parse
+   tree with its n-ary nodes, folde folds an expression with the binary operation e_bin. *)
+Section Fold.
+  Context {A : Type}.
+  Variable a_id : str -> A.
+  Variable a_sel : quant -> str -> A.
+  Variable a_not : A -> A.
+  Variable a_bin : bop -> list A -> A.
+  Variable e_bin : bop -> A -> A -> A.
 
+  Fixpoint foldt (t : ptree) : A :=
+    match t with
+    | PId n => a_id n
+    | PSel q p => a_sel q p
+    | PNot a => a_not (foldt a)
+    | PAnd l => a_bin BAnd (map foldt l)
+    | POr l => a_bin BOr (map foldt l)
+    end.
+
+  Fixpoint folde (e : expr) : A :=
+    match e with
+    | EId n => a_id n
+    | ESel q p => a_sel q p
+    | ENot a => a_not (folde a)
+    | EAnd a b => e_bin BAnd (folde a) (folde b)
+    | EOr a b => e_bin BOr (folde a) (folde b)
+    end.
+End Fold.
+
+(* the parser run in any algebra = the tree parser followed by the fold *)
 Section Hom.
-  Variable vid : str -> bool.
-  Variable vsel : quant -> str -> bool.
+  Context {A : Type}.
+  Variable a_id : str -> A.
+  Variable a_sel : quant -> str -> A.
+  Variable a_not : A -> A.
+  Variable a_bin : bop -> list A -> A.
   Notation pet := (pe PId PSel PNot t_bin).
   Notation loopt := (loop PId PSel PNot t_bin).
-  Notation peb := (pe vid vsel negb b_bin).
-  Notation loopb := (loop vid vsel negb b_bin).
-  Notation h := (denv vid vsel).
+  Notation pea := (pe a_id a_sel a_not a_bin).
+  Notation loopa := (loop a_id a_sel a_not a_bin).
+  Notation h := (foldt a_id a_sel a_not a_bin).
 
-  Definition mapres (x : pres (ptree * list tok)) : pres (bool * list tok) :=
+  Definition mapres (x : pres (ptree * list tok)) : pres (A * list tok) :=
     match x with Done (v, r) => Done (h v, r) | Fail => Fail | OutOfFuel => OutOfFuel end.
 
-  Lemma forallb_map_id {X} (f : X -> bool) l : forallb (fun b => b) (map f l) = forallb f l.
-  Proof. induction l; simpl; congruence. Qed.
-  Lemma existsb_map_id {X} (f : X -> bool) l : existsb (fun b => b) (map f l) = existsb f l.
-  Proof. induction l; simpl; congruence. Qed.
+  Lemma bin_hom o l : h (t_bin o l) = a_bin o (map h l).
+  Proof. destruct o; reflexivity. Qed.
 
-  Lemma bin_hom o l : h (t_bin o l) = b_bin o (map h l).
-  Proof. destruct o; simpl; [rewrite forallb_map_id | rewrite existsb_map_id]; reflexivity. Qed.
-
-  Lemma fin_hom o l : h (fin t_bin o l) = fin b_bin o (map h l).
+  Lemma fin_hom o l : h (fin t_bin o l) = fin a_bin o (map h l).
   Proof.
     destruct l as [|x [|y l]]; cbn [fin map]; try reflexivity; apply bin_hom.
   Qed.
 
   Lemma sel_hom ts :
-    sel vsel ts = match sel PSel ts with Some (v, r) => Some (h v, r) | None => None end.
+    sel a_sel ts = match sel PSel ts with Some (v, r) => Some (h v, r) | None => None end.
   Proof.
     unfold sel. destruct ts as [|[q| |] [|[o| |] r0]]; try reflexivity.
     destruct (quant_of q); [|reflexivity].
@@ -306,8 +331,8 @@ Section Hom.
   Qed.
 
   Lemma pe_hom : forall f,
-    (forall i ts, peb f i ts = mapres (pet f i ts)) /\
-    (forall o k acc r, loopb f o k (map h acc) r = mapres (loopt f o k acc r)).
+    (forall i ts, pea f i ts = mapres (pet f i ts)) /\
+    (forall o k acc r, loopa f o k (map h acc) r = mapres (loopt f o k acc r)).
   Proof.
     induction f as [|f [IHp IHl]]; split; intros; try reflexivity.
     - rewrite !pe_S. destruct i as [|[|k]].
@@ -330,26 +355,30 @@ End Hom.
 
 (* ====================== completeness of the PEG for the stratified grammar ====================== *)
 Section Complete.
-  Variable vid : str -> bool.
-  Variable vsel : quant -> str -> bool.
+  Context {A : Type}.
+  Variable vid : str -> A.
+  Variable vsel : quant -> str -> A.
+  Variable negb : A -> A.
+  Variable b_bin : bop -> list A -> A.
+  Variable e_bin : bop -> A -> A -> A.
+  (* the laws that tie the n-ary nodes of the parser to the binary operators of the grammar *)
+  Hypothesis law1 : forall o x, b_bin o [x] = x.
+  Hypothesis law2 : forall o l v, l <> [] -> b_bin o (l ++ [v]) = e_bin o (b_bin o l) v.
   Notation peb := (pe vid vsel negb b_bin).
   Notation loopb := (loop vid vsel negb b_bin).
   Notation selb := (sel vsel).
-  Notation sm := (semv vid vsel).
+  Notation sm := (folde vid vsel negb e_bin).
 
-  Definition PE (i : nat) (ts : list tok) (v : bool) (r : list tok) : Prop :=
+  Definition PE (i : nat) (ts : list tok) (v : A) (r : list tok) : Prop :=
     exists f, peb f i ts = Done (v, r).
-  Definition LOOP (o : bop) (k : nat) (acc : list bool) (r : list tok) (v : bool) (r' : list tok) : Prop :=
+  Definition LOOP (o : bop) (k : nat) (acc : list A) (r : list tok) (v : A) (r' : list tok) : Prop :=
     exists f, loopb f o k acc r = Done (v, r').
 
   Definition hd_word (w : str) (ts : list tok) : Prop :=
     match ts with TW x :: _ => x = w | _ => False end.
 
   Lemma fin_b o l : fin b_bin o l = b_bin o l.
-  Proof.
-    destruct l as [|x [|y l]]; try reflexivity.
-    destruct o; simpl; [apply eq_sym, andb_true_r | apply eq_sym, orb_false_r].
-  Qed.
+  Proof. destruct l as [|x [|y l]]; try reflexivity. cbn [fin]. symmetry. apply law1. Qed.
 
   Lemma str_eqb_neq a b : a <> b -> str_eqb a b = false.
   Proof. intros H. destruct (str_eqb a b) eqn:E; [|reflexivity]. apply str_eqb_eq in E. contradiction. Qed.
@@ -449,10 +478,10 @@ Section Complete.
   Qed.
 
   (* ---------- operand sequences ---------- *)
-  Definition Operand (k : nat) (ts : list tok) (v : bool) : Prop :=
+  Definition Operand (k : nat) (ts : list tok) (v : A) : Prop :=
     forall rest, stops k rest -> PE k (ts ++ rest) v rest.
 
-  Inductive OpSeq (o : bop) (k : nat) : list tok -> list bool -> Prop :=
+  Inductive OpSeq (o : bop) (k : nat) : list tok -> list A -> Prop :=
   | os1 ts v : Operand k ts v -> OpSeq o k ts [v]
   | osS ts v ts' l : Operand k ts v -> OpSeq o k ts' l ->
       OpSeq o k (ts ++ TW (opw o) :: ts') (v :: l).
@@ -505,13 +534,8 @@ Section Complete.
     - rewrite <- app_assoc. cbn [app]. apply osS; [exact Hop|]. apply IH. exact H2.
   Qed.
 
-  Lemma b_bin_snoc o l v :
-    b_bin o (l ++ [v]) = match o with BAnd => b_bin o l && v | BOr => b_bin o l || v end.
-  Proof.
-    destruct o; simpl.
-    - rewrite forallb_app. simpl. rewrite andb_true_r. reflexivity.
-    - rewrite existsb_app. simpl. rewrite orb_false_r. reflexivity.
-  Qed.
+  Lemma OpSeq_ne o k ts l : OpSeq o k ts l -> l <> [].
+  Proof. destruct 1; discriminate. Qed.
 
   (* ---------- main induction, over the derivation of the spelling ---------- *)
   Lemma quant_of_qword q : quant_of (qword q) = Some q.
@@ -561,7 +585,7 @@ Section Complete.
       assert (Ob : Operand 1 ts2 (sm b)) by (intros rest Hs; apply Pb; [lia|exact Hs]).
       pose proof (OpSeq_snoc _ _ _ _ _ _ Hl Ob) as Hseq.
       assert (Ev : b_bin BAnd (l ++ [sm b]) = sm (EAnd a b)).
-      { rewrite b_bin_snoc, El. reflexivity. }
+      { rewrite law2, El by (eapply OpSeq_ne; eauto). reflexivity. }
       split; [|split; [intros _; eexists; split; [exact Hseq|exact Ev] | intros; discriminate]].
       intros j rest Hj Hs. rewrite <- Ev.
       assert (P2 : PE 2 ((ts1 ++ TW w_and :: ts2) ++ rest) (b_bin BAnd (l ++ [sm b])) rest).
@@ -574,7 +598,7 @@ Section Complete.
       assert (Ob : Operand 2 ts2 (sm b)) by (intros rest Hs; apply Pb; [lia|exact Hs]).
       pose proof (OpSeq_snoc _ _ _ _ _ _ Hl Ob) as Hseq.
       assert (Ev : b_bin BOr (l ++ [sm b]) = sm (EOr a b)).
-      { rewrite b_bin_snoc, El. reflexivity. }
+      { rewrite law2, El by (eapply OpSeq_ne; eauto). reflexivity. }
       split; [|split; [intros; discriminate | intros _; eexists; split; [exact Hseq|exact Ev]]].
       intros j rest Hj Hs. rewrite <- Ev.
       assert (P3 : PE 3 ((ts1 ++ TW w_or :: ts2) ++ rest) (b_bin BOr (l ++ [sm b])) rest).
@@ -586,10 +610,10 @@ Section Complete.
       + intros j rest Hj Hs. apply P; [lia|exact Hs].
       + intros E. assert (i = 1%nat) as -> by lia. exists [sm e]. split.
         * apply os1. intros rest Hs. apply P; [lia|exact Hs].
-        * simpl. apply andb_true_r.
+        * apply law1.
       + intros E. assert (i = 2%nat) as -> by lia. exists [sm e]. split.
         * apply os1. intros rest Hs. apply P; [lia|exact Hs].
-        * simpl. apply orb_false_r.
+        * apply law1.
   Qed.
 
   Theorem complete_b ts e : SpellsT 3 ts e -> wf_expr e = true ->
@@ -601,27 +625,94 @@ Section Complete.
 End Complete.
 
 (* ====================== every spelling is parsed to a tree with the meaning of the expression ====================== *)
-Lemma tree_of_spelling ts e : SpellsT 3 ts e -> wf_expr e = true ->
-  exists t, parse_tree ts = Done t /\ forall vid vsel, denv vid vsel t = semv vid vsel e.
+(* an algebra is lawful when its n-ary nodes agree with a binary operation *)
+Definition lawful {A} (a_bin : bop -> list A -> A) (e_bin : bop -> A -> A -> A) : Prop :=
+  (forall o x, a_bin o [x] = x) /\ (forall o l v, l <> [] -> a_bin o (l ++ [v]) = e_bin o (a_bin o l) v).
+
+Lemma tree_of_spelling_fold {A} a_id a_sel a_not a_bin e_bin ts e :
+  @lawful A a_bin e_bin -> SpellsT 3 ts e -> wf_expr e = true ->
+  exists t, parse_tree ts = Done t /\ foldt a_id a_sel a_not a_bin t = folde a_id a_sel a_not e_bin e.
 Proof.
-  intros H Hw.
-  (* the tree the entry point returns *)
-  assert (T : forall vid vsel, exists t, parse_tree ts = Done t /\ denv vid vsel t = semv vid vsel e).
-  { intros vid vsel. destruct (complete_b vid vsel ts e H Hw) as [f Hf].
-    rewrite (proj1 (pe_hom vid vsel f)) in Hf.
-    destruct (pe PId PSel PNot t_bin f 3 ts) as [[t r]| |] eqn:E; try discriminate.
-    simpl in Hf. inversion Hf; subst. exists t. split; [|reflexivity].
-    unfold parse_tree. eapply parse_toks_of_pe. exact E. }
-  destruct (T (fun _ => false) (fun _ _ => false)) as [t [Ht _]].
-  exists t. split; [exact Ht|]. intros vid vsel.
-  destruct (T vid vsel) as [t' [Ht' Hd]]. rewrite Ht in Ht'. inversion Ht'; subst. exact Hd.
+  intros [L1 L2] H Hw.
+  destruct (complete_b a_id a_sel a_not a_bin e_bin L1 L2 ts e H Hw) as [f Hf].
+  rewrite (proj1 (pe_hom a_id a_sel a_not a_bin f)) in Hf.
+  destruct (pe PId PSel PNot t_bin f 3 ts) as [[t r]| |] eqn:E; try discriminate.
+  simpl in Hf. inversion Hf; subst. exists t. split; [|reflexivity].
+  unfold parse_tree. eapply parse_toks_of_pe. exact E.
 Qed.
+
+(* the same tree for every algebra *)
+Theorem parse_complete_fold e s : wf_expr e = true -> Spells s e ->
+  exists t, parse s = Ok t /\
+    forall A a_id a_sel a_not a_bin e_bin, @lawful A a_bin e_bin ->
+      foldt a_id a_sel a_not a_bin t = folde a_id a_sel a_not e_bin e.
+Proof.
+  intros Hw [ts [HL HS]].
+  assert (L0 : @lawful unit (fun _ _ => tt) (fun _ _ _ => tt)).
+  { split; intros; [destruct x|]; reflexivity. }
+  destruct (tree_of_spelling_fold (fun _ => tt) (fun _ _ => tt) (fun _ => tt) _ _ ts e L0 HS Hw) as [t [Ht _]].
+  exists t. split.
+  - unfold parse. rewrite (lex_layout _ _ HL), Ht. reflexivity.
+  - intros A a_id a_sel a_not a_bin e_bin L.
+    destruct (tree_of_spelling_fold a_id a_sel a_not a_bin e_bin ts e L HS Hw) as [t' [Ht' Hd]].
+    rewrite Ht in Ht'. inversion Ht'; subst. exact Hd.
+Qed.
+
+(* ---------- instances ---------- *)
+Definition b_bin (o : bop) (l : list bool) : bool :=
+  match o with BAnd => forallb (fun b => b) l | BOr => existsb (fun b => b) l end.
+Definition b_op (o : bop) (a b : bool) : bool := match o with BAnd => a && b | BOr => a || b end.
+
+Lemma lawful_bool : lawful b_bin b_op.
+Proof.
+  split.
+  - intros [] x; simpl; [apply andb_true_r | apply orb_false_r].
+  - intros [] l v _; simpl.
+    + rewrite forallb_app. simpl. rewrite andb_true_r. reflexivity.
+    + rewrite existsb_app. simpl. rewrite orb_false_r. reflexivity.
+Qed.
+
+Section PtreeInd.
+  Variable P : ptree -> Prop.
+  Hypothesis Hid : forall n, P (PId n).
+  Hypothesis Hsel : forall q p, P (PSel q p).
+  Hypothesis Hnot : forall a, P a -> P (PNot a).
+  Hypothesis Hand : forall l, Forall P l -> P (PAnd l).
+  Hypothesis Hor : forall l, Forall P l -> P (POr l).
+  Fixpoint ptree_ind' (t : ptree) : P t :=
+    match t with
+    | PId n => Hid n
+    | PSel q p => Hsel q p
+    | PNot a => Hnot a (ptree_ind' a)
+    | PAnd l => Hand l ((fix go l : Forall P l :=
+                  match l with [] => Forall_nil P | x :: r => Forall_cons x (ptree_ind' x) (go r) end) l)
+    | POr l => Hor l ((fix go l : Forall P l :=
+                  match l with [] => Forall_nil P | x :: r => Forall_cons x (ptree_ind' x) (go r) end) l)
+    end.
+End PtreeInd.
+
+Lemma forallb_map_id {X} (f : X -> bool) l : forallb (fun b => b) (map f l) = forallb f l.
+Proof. induction l; simpl; congruence. Qed.
+Lemma existsb_map_id {X} (f : X -> bool) l : existsb (fun b => b) (map f l) = existsb f l.
+Proof. induction l; simpl; congruence. Qed.
+
+Lemma denv_foldt vid vsel t : denv vid vsel t = foldt vid vsel negb b_bin t.
+Proof.
+  induction t as [n|q p|a IH|l IH|l IH] using ptree_ind'; simpl; try reflexivity.
+  - rewrite IH. reflexivity.
+  - rewrite forallb_map_id. induction IH as [|x l Hx _ IHl]; simpl; [reflexivity|]. rewrite Hx, IHl. reflexivity.
+  - rewrite existsb_map_id. induction IH as [|x l Hx _ IHl]; simpl; [reflexivity|]. rewrite Hx, IHl. reflexivity.
+Qed.
+
+Lemma semv_folde vid vsel e : semv vid vsel e = folde vid vsel negb b_op e.
+Proof. induction e; simpl; congruence. Qed.
 
 Theorem parse_complete e s : wf_expr e = true -> Spells s e ->
   exists t, parse s = Ok t /\ forall vid vsel, denv vid vsel t = semv vid vsel e.
 Proof.
-  intros Hw [ts [HL HS]]. destruct (tree_of_spelling ts e HS Hw) as [t [Ht Hd]].
-  exists t. split; [|exact Hd]. unfold parse. rewrite (lex_layout _ _ HL), Ht. reflexivity.
+  intros Hw HS. destruct (parse_complete_fold e s Hw HS) as [t [Ht Hf]].
+  exists t. split; [exact Ht|]. intros vid vsel.
+  rewrite denv_foldt, semv_folde. apply Hf. exact lawful_bool.
 Qed.
 
 (* the fuel of the entry point always suffices *)
